@@ -335,7 +335,7 @@ func clearIgnoreMissing(b []*S) {
 }
 
 func TestC17Names(t *testing.T) {
-	r := NewRec(t, "C17", "the same structures with exactly one unresolvable filter / function / test / template name injected at a random expression position behind a guard spy that tells whether the position was evaluated; non-trivial = the position was evaluated (the guard was hit); distinct by source set")
+	r := NewRec(t, "C17", "the same structures with exactly one unresolvable filter / function / test / template name (template names also relative: ./x, ../x) injected at a random expression position behind a guard spy that tells whether the position was evaluated; non-trivial = the position was evaluated (the guard was hit); distinct by source set")
 	defer r.Flush()
 	rapid.Check(t, func(rt *rapid.T) {
 		sc, kind := genStructured(rt)
@@ -365,7 +365,7 @@ func TestC17Names(t *testing.T) {
 				return Cond(Test(Call("spy2", e), "no_such_test", false), e, e)
 			default:
 				if where == "include-name" || where == "extends-name" || where == "import-name" {
-					return Call("spy2", Str("no/such/template"))
+					return Call("spy2", Str(rapid.SampledFrom([]string{"no/such/template", "./nosuch", "../nosuch", "./no/such.twig", "../shared/nosuch"}).Draw(rt, "missingname")))
 				}
 				nameKind = "filter"
 				return Filt(Filt(e, "spyf2"), "no_such_filter")
@@ -394,60 +394,108 @@ func init() {
 // ---- callbacks registered under built-in names ---------------------------------------------
 
 type C17OverrideCase struct {
-	Filter string `json:"filter"` // name re-registered with a failing callback
+	Filter string `json:"filter"`         // name re-registered with a failing callback
+	Kind   string `json:"kind,omitempty"` // "" = filter, "function", "test"
 	Src    string `json:"src"`
 }
 
 func checkC17Override(c C17OverrideCase) error {
-	e := newEngine(map[string]string{"main": c.Src})
-	calls := 0
-	e.AddFilter(c.Filter, func(v interface{}, args ...interface{}) (interface{}, error) {
-		calls++
-		return nil, errSentinel
-	})
-	r := render(e, "main", map[string]interface{}{"xs": []interface{}{3, 1, 2}, "s": " a  b "})
-	if r.Panic != "" {
-		return fmt.Errorf("panic: %s", r.Panic)
-	}
-	if calls == 0 {
-		return nil
-	}
-	if r.Err == "" {
-		return fmt.Errorf("filter %q failed (called %d times) but Render returned %s with a nil error; source %s", c.Filter, calls, q(r.Out), q(c.Src))
-	}
-	if !errors.Is(r.Error(), errSentinel) {
-		return fmt.Errorf("filter %q failed but the error does not wrap the cause: %s; source %s", c.Filter, firstLine(r.Err), q(c.Src))
-	}
-	if r.Out != "" {
-		return fmt.Errorf("partial output %s with the error; source %s", q(r.Out), q(c.Src))
-	}
-	return nil
+	_, err := checkC17OverrideN(c)
+	return err
 }
 
+func checkC17OverrideN(c C17OverrideCase) (calls int, err error) {
+	e := newEngine(map[string]string{"main": c.Src, "leaf": "({{ v }})"})
+	switch c.Kind {
+	case "function":
+		e.AddFunction(c.Filter, func(args ...interface{}) (interface{}, error) {
+			calls++
+			return nil, errSentinel
+		})
+	case "test":
+		e.AddTest(c.Filter, func(v interface{}, args ...interface{}) (bool, error) {
+			calls++
+			return false, errSentinel
+		})
+	default:
+		e.AddFilter(c.Filter, func(v interface{}, args ...interface{}) (interface{}, error) {
+			calls++
+			return nil, errSentinel
+		})
+	}
+	kind := c.Kind
+	if kind == "" {
+		kind = "filter"
+	}
+	r := render(e, "main", map[string]interface{}{"xs": []interface{}{3, 1, 2}, "s": " a  b ", "n": 4})
+	if r.Panic != "" {
+		return calls, fmt.Errorf("panic: %s", r.Panic)
+	}
+	if calls == 0 {
+		return 0, nil
+	}
+	if r.Err == "" {
+		return calls, fmt.Errorf("%s %q failed (called %d times) but Render returned %s with a nil error; source %s", kind, c.Filter, calls, q(r.Out), q(c.Src))
+	}
+	if !errors.Is(r.Error(), errSentinel) {
+		return calls, fmt.Errorf("%s %q failed but the error does not wrap the cause: %s; source %s", kind, c.Filter, firstLine(r.Err), q(c.Src))
+	}
+	if r.Out != "" {
+		return calls, fmt.Errorf("partial output %s with the error; source %s", q(r.Out), q(c.Src))
+	}
+	return calls, nil
+}
+
+var c17BuiltinFilters = []string{"default", "escape", "e", "upper", "lower", "trim", "raw", "length", "count", "join", "split", "date", "url_encode", "capitalize", "title", "first", "last", "slice", "reverse", "sort", "keys", "merge", "replace",
+	"striptags", "number_format", "abs", "round", "nl2br", "format", "json_encode", "spaceless"}
+var c17BuiltinFunctions = []string{"range", "date", "random", "max", "min", "dump", "constant", "cycle", "include", "json_encode", "length", "merge", "parent"}
+var c17BuiltinTests = []string{"defined", "empty", "null", "none", "even", "odd", "iterable", "same_as", "divisible_by", "constant", "equalto", "sameas", "starts_with", "ends_with", "matches"}
+
+// positions for a name N: F stands for the filter application, G(..) for the function call, T for the test
+var c17FilterSites = []string{"{{ xs|N }}", "{{ xs|N|length }}", "{{ xs|reverse|N }}", "{% set v = xs|N %}[{{ v }}]", "{% if xs|N %}y{% else %}n{% endif %}", "{% for i in xs|N %}{{ i }}{% else %}none{% endfor %}",
+	"{% for i in xs|N|reverse %}{{ i }}{% else %}none{% endfor %}", "{% for i in xs|reverse|N %}{{ i }}{% else %}none{% endfor %}", "a{% apply N %}x{% endapply %}c", "{{ max(1, n|N) }}", "{{ nope|default(xs|N) }}",
+	"{% include 'leaf' with {'v': xs|N} %}", "{% macro m(x) %}{{ x|N }}{% endmacro %}{{ m(s) }}", "{{ (xs|N) ? 'a' : 'b' }}", "{{ [xs|N]|length }}"}
+var c17FunctionSites = []string{"{{ N(xs) }}", "{{ N(1, 3) }}", "{{ N(xs)|length }}", "{% set v = N(xs) %}[{{ v }}]", "{% if N(xs) %}y{% else %}n{% endif %}", "{% for i in N(xs) %}{{ i }}{% else %}none{% endfor %}",
+	"{% for i in N(1, 3) %}{{ i }}{% else %}none{% endfor %}", "{% for i in N(xs)|reverse %}{{ i }}{% else %}none{% endfor %}", "{{ nope|default(N(xs)) }}", "{% include 'leaf' with {'v': N(xs)} %}",
+	"{% macro m(x) %}{{ x }}{% endmacro %}{{ m(N(xs)) }}", "{{ N(xs) ? 'a' : 'b' }}", "{{ [N(xs)]|length }}", "{% for i in xs %}{{ N(i, 2) }}{% endfor %}", "{% apply upper %}{{ N(xs) }}{% endapply %}"}
+var c17TestSites = []string{"{{ n is N ? 'a' : 'b' }}", "{{ n is N(2) ? 'a' : 'b' }}", "{{ n is not N ? 'a' : 'b' }}", "{% if n is N %}y{% else %}n{% endif %}", "{% if n is N(2) %}y{% else %}n{% endif %}", "{% set v = n is N %}[{{ v }}]",
+	"{% for i in xs %}{% if i is N %}y{% endif %}{% endfor %}", "{% for i in (n is N) ? xs : [] %}{{ i }}{% else %}none{% endfor %}"}
+
 func TestC17Overrides(t *testing.T) {
-	r := NewRec(t, "C17", "exhaustive: each built-in filter name that a tag or construct applies on its own (spaceless tag, apply tag, for-sequence filters, filter chains, default arguments) re-registered by the user with a failing callback; all cases non-trivial")
+	r := NewRec(t, "C17", "exhaustive: every built-in filter (31), function (13) and test (15) name re-registered by the user with a failing callback and used in 15 / 15 / 8 positions (print, chain positions, set, if, for sequence bare and in chains, apply tag, arguments, include-with, macro, conditional, list element), plus the tags that apply a filter on their own; non-trivial = the failing callback was invoked")
 	defer r.Flush()
 	r.SetExhaustive()
 	cases := []C17OverrideCase{
-		{"spaceless", "a{% spaceless %} <b> x </b> {% endspaceless %}c"},
-		{"spaceless", "{{ s|spaceless }}"},
-		{"upper", "a{% apply upper %}x{% endapply %}c"},
-		{"upper", "{% for i in xs %}{% apply upper %}{{ i }}{% endapply %}{% endfor %}"},
-		{"sort", "{% for i in xs|sort %}{{ i }}{% endfor %}"},
-		{"sort", "{% for i in xs|reverse|sort %}{{ i }}{% else %}none{% endfor %}"},
-		{"reverse", "{% for i in xs|reverse|sort %}{{ i }}{% endfor %}"},
-		{"join", "{{ xs|sort|join(',') }}"},
-		{"trim", "{% set v = s|trim %}[{{ v }}]"},
-		{"trim", "{% if s|trim %}y{% endif %}"},
-		{"default", "{{ nope|default('d') }}"},
-		{"length", "{{ xs|length > 2 ? 'a' : 'b' }}"},
-		{"escape", "{% macro m(x) %}{{ x|escape }}{% endmacro %}{{ m(s) }}"},
-		{"e", "{% include 'main2' ignore missing %}{{ s|e }}"},
+		{Filter: "spaceless", Src: "a{% spaceless %} <b> x </b> {% endspaceless %}c"},
+		{Filter: "spaceless", Src: "{{ s|spaceless }}"},
+		{Filter: "upper", Src: "{% for i in xs %}{% apply upper %}{{ i }}{% endapply %}{% endfor %}"},
+		{Filter: "sort", Src: "{% for i in xs|reverse|sort %}{{ i }}{% else %}none{% endfor %}"},
+		{Filter: "join", Src: "{{ xs|sort|join(',') }}"},
+		{Filter: "trim", Src: "{% if s|trim %}y{% endif %}"},
+		{Filter: "default", Src: "{{ nope|default('d') }}"},
+		{Filter: "length", Src: "{{ xs|length > 2 ? 'a' : 'b' }}"},
+		{Filter: "e", Src: "{% include 'main2' ignore missing %}{{ s|e }}"},
+	}
+	for _, n := range c17BuiltinFilters {
+		for _, site := range c17FilterSites {
+			cases = append(cases, C17OverrideCase{Filter: n, Src: strings.ReplaceAll(site, "N", n)})
+		}
+	}
+	for _, n := range c17BuiltinFunctions {
+		for _, site := range c17FunctionSites {
+			cases = append(cases, C17OverrideCase{Filter: n, Kind: "function", Src: strings.ReplaceAll(site, "N", n)})
+		}
+	}
+	for _, n := range c17BuiltinTests {
+		for _, site := range c17TestSites {
+			cases = append(cases, C17OverrideCase{Filter: n, Kind: "test", Src: strings.ReplaceAll(site, "N", n)})
+		}
 	}
 	for _, c := range cases {
-		r.Case(c.Filter+c.Src, true, c)
-		if err := checkC17Override(c); err != nil {
-			r.FailEnum(t, "C17.override", c, err)
+		calls, err := checkC17OverrideN(c)
+		r.Case(c.Kind+c.Filter+c.Src, calls > 0, c, "kind:"+map[string]string{"": "filter", "function": "function", "test": "test"}[c.Kind])
+		if err != nil {
+			r.FailEnumKey(t, "C17.override", c.Kind+"/"+c.Filter, c, err)
 		}
 	}
 }
